@@ -224,7 +224,7 @@ def run(ctx):
     adj, inits, nedges = vlib.read_edges(edges)
     walks = vlib.edge_cover(adj, inits)
     if ctx.tier == "thorough":
-        walks += vlib.random_walks(adj, inits, 3000, ctx.rng)
+        walks += vlib.random_walks(adj, inits, 1500, ctx.rng)
     bp = os.path.join(ctx.work, "behaviours.ndjson")
     seen, nb, nbad, kept_bad = set(), 0, 0, 0
     max_bad = 4 if ctx.quick else 12
@@ -258,7 +258,7 @@ def run(ctx):
     # ---- 4. real code
     exe = vlib.build(ctx, "future_driver", ["engines/future/driver.cpp"], lib=LIB, extra=["-fsanitize-recover=address"])
     byid = {s["id"]: s for s in scns}
-    cap_d, cap_r = (36, 6) if ctx.quick else (600, 100)
+    cap_d, cap_r = (36, 6) if ctx.quick else (400, 80)
     if os.environ.get("VERIF_FUTURE_SELFTEST"):       # reduced volume for the mutation self-test (future_selftest.py)
         cap_d, cap_r = 24, 4
     runs = [("guided", ["--mode", "guided", "--scenarios", sp, "--behaviours", bp], nb),
